@@ -308,7 +308,10 @@ impl BDF {
             let mut x_new = x + h_signed;
             if direction * (x_new - xend) > 0.0 {
                 let step_to_end = (xend - x).abs();
-                if step_to_end == 0.0 {
+                // xend has been reached, exactly or up to the rounding of the accumulated steps:
+                // a remaining sliver of a few ulp is not a step to take (it would only trip the
+                // step-size-too-small guard below)
+                if step_to_end == 0.0 || step_to_end < 4.0 * Float::EPSILON * x.abs().max(xend.abs()) {
                     status = Status::Success;
                     break;
                 }
